@@ -218,3 +218,39 @@ Proof.
   assert (Z : hwg s = 0). { rewrite (i_cnt _ I). apply cnt_zero. exact A. }
   split; [exact Z|]. intros W. simpl. rewrite W, Z. discriminate.
 Qed.
+
+(** Stop() takes no lock: both of its steps are enabled in EVERY state (whoever holds handlersLock) *)
+Lemma stop_never_blocks s t h a :
+  thr s t = TStopRead h a \/ thr s t = TStopCall h a -> step s (LT t CStep) <> None.
+Proof.
+  intros [E|E]; simpl; rewrite E.
+  - destruct (h_started (hs s h)); discriminate.
+  - destruct (h_stopFn (hs s h)); discriminate.
+Qed.
+
+Lemma rh_xf s me par p c s1 p' e : rh_step s me par p c = Some (s1, p', e) -> mainp s1 = mainp s.
+Proof. unfold rh_step. intros X. destruct p, c; try discriminate X; destr X; injection X as <- _ _; reflexivity. Qed.
+Lemma cl_xf s me p c s1 p' : cl_step s me p c = Some (s1, p') -> mainp s1 = mainp s.
+Proof. unfold cl_step, close_unstarted. intros X. destruct p, c; try discriminate X; destr X; injection X as <- _; reflexivity. Qed.
+
+(** Run returns an error only right after a Subscribe failed: a cancelled Run context is no reason *)
+Lemma run_error_only_after_failed_subscribe s l s' evs :
+  step s l = Some (s', evs) ->
+  (mainp s' = RDone false -> mainp s <> RDone false -> mainp s = RRH HFail \/ mainp s = RRH HCheck)
+  /\ (mainp s' = RRH HFail -> mainp s <> RRH HFail -> exists h, l = LMain (CPick h false) /\ evs = [ASubscribe h false]).
+Proof.
+  intros X. destruct l; unfold step in X.
+  16: { destruct (mainp s) eqn:E; try discriminate X.
+        - destr X; injection X as <- _; simpl; split; intros; congruence.
+        - destruct (rh_step s OMain PRun p c) as [[[s1 p'] e1]|] eqn:RH; [|discriminate].
+          unfold rh_step in RH. destruct p, c; try discriminate RH; destr RH; injection RH as <- <- <-;
+            injection X as <- <-; simpl; split; intros; try congruence; eauto.
+        - destr X; injection X as <- _; simpl; split; intros; congruence.
+        - destr X; injection X as <- _; simpl; split; intros; congruence.
+        - destr X; injection X as <- _; simpl; split; intros; congruence. }
+  all: destr X; injection X as <- _; subst;
+    repeat match goal with
+           | E : rh_step _ _ _ _ _ = Some _ |- _ => apply rh_xf in E
+           | E : cl_step _ _ _ _ = Some _ |- _ => apply cl_xf in E
+           end; simpl in *; split; intros; try congruence.
+Qed.
